@@ -9,7 +9,7 @@ mkdir -p $S
 git -C /repo worktree add --detach $S/repo HEAD >/dev/null 2>&1 || exit 2
 ( cd $S/repo && git apply "$PATCH" ) || { git -C /repo worktree remove --force $S/repo; rm -rf $S; exit 2; }
 cp -n /repo/packages/rooc/Cargo.lock $S/repo/packages/rooc/Cargo.lock
-rsync -a --exclude runs --exclude .git --exclude evidence /verif/ $S/verif/
+rsync -a --exclude runs --exclude .git --exclude evidence ${VERIF_SRC:-/verif}/ $S/verif/
 mkdir -p $S/verif/evidence
 sed -i "s#/repo/packages/rooc#$S/repo/packages/rooc#" $S/verif/harness/Cargo.toml $S/verif/vlib/core.py
 rm -f $S/verif/harness/Cargo.lock
